@@ -188,7 +188,28 @@ class _Cut:
         raise PathEnd()
 
 
+class _Poison:
+    """Value of a loop-body temporary that the loop spec does not list: any use is out of reach."""
+
+    def _boom(self, *a, **k):
+        raise Unsupported("a variable assigned in a cut loop but unknown to the loop spec is read before being assigned")
+
+    __bool__ = __add__ = __radd__ = __sub__ = __rsub__ = __mul__ = __rmul__ = __truediv__ = __rtruediv__ = _boom
+    __lt__ = __le__ = __gt__ = __ge__ = __call__ = __getitem__ = __iter__ = __len__ = __neg__ = _boom
+
+    def __getattr__(self, n):
+        self._boom()
+
+    def __eq__(self, o):
+        self._boom()
+
+    def __hash__(self):
+        return 0
+
+
 class _Runtime:
+    POISON = _Poison()
+
     @staticmethod
     def enter(fn, k, iterable, loc):
         spec = ACTIVE.get((fn, k))
@@ -288,9 +309,10 @@ def _cut_loop(st, qualname, k, spec: LoopSpec):
             if isinstance(n, ast.Name):
                 target_names.add(n.id)
     undeclared = stored - set(spec.modifies) - target_names
-    if undeclared:
-        raise Unsupported("loop #%d of %s assigns %s which the loop spec does not list in `modifies`"
-                          % (k, qualname, sorted(undeclared)))
+    # names the spec does not know (e.g. a temporary introduced by a refactoring) are havoced
+    # to a poison value: harmless if the body assigns them before reading them, otherwise the
+    # path leaves the engine's reach (Unsupported) - never silently wrong
+    extra = sorted(undeclared)
     pv = "__pv%d" % k
     line = dict(lineno=st.lineno, col_offset=st.col_offset)
 
@@ -310,6 +332,9 @@ def _cut_loop(st, qualname, k, spec: LoopSpec):
                               value=havoc_call, **line))
     else:
         out.append(ast.Expr(value=havoc_call, **line))
+    for m in extra:
+        out.append(ast.Assign(targets=[name(m, ast.Store)],
+                              value=ast.Attribute(value=name("__pyvc__"), attr="POISON", ctx=ast.Load(), **line), **line))
     if isinstance(st, ast.For):
         out.append(ast.For(target=st.target, iter=name(pv), body=st.body, orelse=st.orelse, **line))
     else:
